@@ -163,6 +163,12 @@ func verifHarness_C08_flush(sc int) {
 	switch sc {
 	case 1:
 		verifThread("flusher2", func() {
+			// the Writer has one user at a time: the second goroutine only calls Flush while the
+			// first one is inside Flush (it holds the flushing lock), never between the first
+			// one's Malloc and Flush
+			if atomic.LoadInt32(&c.keychain[flushing]) != 1 {
+				return
+			}
 			before := atomic.LoadInt32(&verifS.sends)
 			err := c.Flush()
 			if err != nil && errors.Is(err, ErrConcurrentAccess) {
